@@ -1477,8 +1477,8 @@ fn main() {
                         ord_term.take().unwrap_or_else(|| "[]".into()), // the history's index write steps ride on its first case
                         // latest checkpoint through the .comp sidecar: compared when nothing can rebuild the caches before the
                         // look-up (full sidecar exact, message counts answered by intact derived caches)
-                        if *which == "latestckpt" && out.coh.full == FileState::Exact && counts_intact {
-                            res.bump(&format!("latest_ckpt_cases_in_model:comp={:?}", out.coh.comp));
+                        if (*which == "latestckpt" || *which == "cutpoints") && out.coh.full == FileState::Exact && counts_intact {
+                            res.bump(&format!("{which}_cases_through_comp_model:comp={:?}", out.coh.comp));
                             format!("(Some {})", coq_opt(&out.comp, |ls| coq_list(ls, |(g, x)| if *g { format!("G {x}") } else { format!("B {x}") })))
                         } else {
                             "None".to_string()
